@@ -11,6 +11,10 @@ The property theorems are in `namespace Gms.C30` below:
 * `roundtrip_encode_decode`, `roundtrip_decode_encode`, `representable_converts` – round trips
 * `decode_total_safe`, `encode_total_safe`, `replace_total_safe`, `encodeSpec_total_safe` – no crash
 * `encode_capacity_irrelevant`                                               – `Encode` never reads behind `len(str)`
+* `results_independent_late`, `results_independent_eager`, `batch_keep_independent`, `batch_edit_independent`,
+  `batch_roundtrip`                                                          – results of successive calls are independent
+                                                                               (memory model Gms/Model/RangeMapMem.lean)
+* `shared_not_independent`, `memo_not_independent`                           – … which fails for storage that outlives a call
 * `encode_eq_spec_partial`, `replace_eq_spec_partial`                        – Impl vs. Spec
 * `finding_…`                                                                – the remaining defects
 * `fixed_encode_unrepresentable_tail`, `encodePreFix_crash_iff`, `encodePreFix_tail_repaired`
@@ -18,6 +22,7 @@ The property theorems are in `namespace Gms.C30` below:
 * `wf_all`, `facts_match`, `loose_entries`                                   – regenerated facts
 -/
 import Gms.Lemmas.RangeMap
+import Gms.Lemmas.RangeMapMem
 import Gms.Generated.C30
 
 namespace Gms.C30
@@ -241,6 +246,89 @@ theorem replace_total_safe (rm : RangeMap) (s : List Nat) :
     (∃ b, replace rm s = .ok b) ∧ ∃ b, replaceSpec rm s = .ok b :=
   ⟨replLoop_total _ _ _ _ _ (by omega), replLoop_total _ _ _ _ _ (by omega)⟩
 
+/-! ### Results of successive calls are independent
+
+The round-trip theorems above speak about values. A caller holds *slices*; they stay equal to those
+values only if no later call (and no write of the caller into some other slice) reaches their
+storage. `Gms/Model/RangeMapMem.lean` makes the storage explicit; the code allocates per call
+(`Alloc.fresh`, pinned by `facts_match`: the returned variable of every conversion function is
+written by `make(…)` and `append`/index assignment only, the file has no package-level variable and
+`RangeMap` no field besides the tables). -/
+
+/-- **Late reads.** Any batch of calls — any operations, any character sets, any order (hence any
+interleaving of the calls of several goroutines), with the caller writing into buffers it owned before
+the batch in between: all results, read when the batch is over, are the values of the pure functions. -/
+theorem results_independent_late (st : List Step) (m : Mem) (he : editsBelow m.heap.length st = true) :
+    observeLate .fresh st m = pureResults st :=
+  observeLate_fresh st m m.heap.length (Nat.le_refl _) he
+
+/-- **Eager reads, results edited by the caller** (`IsReturnSafe`): every result, read when its call
+returns, is the value of the pure function although the caller overwrites every earlier result. -/
+theorem results_independent_eager (junk : Nat) (st : List Step) (m : Mem) :
+    observeEager .fresh junk st m = pureResults st :=
+  observeEager_fresh junk st m
+
+/-- The batch of the harness's `keep` (and `par`) mode: input `j` in buffer `j`, scribbled over
+after call `j`, everything read at the end. -/
+theorem batch_keep_independent (junk : Nat) (cs : List (List Nat × Res)) :
+    observeLate .fresh (keepBatch junk 0 cs) { heap := cs.map (·.1) } = cs.map (·.2) := by
+  rw [results_independent_late _ _ (editsBelow_keepBatch junk cs 0 _ (by simp)), pureResults_keepBatch]
+
+/-- The batch of the harness's `edit` mode. -/
+theorem batch_edit_independent (junk junk' : Nat) (cs : List (List Nat × Res)) (m : Mem) :
+    observeEager .fresh junk' (keepBatch junk 0 cs) m = cs.map (·.2) := by
+  rw [results_independent_eager, pureResults_keepBatch]
+
+/-- **Round trip of a batch.** Encode any strings `ss` (each successfully, by the Spec), decode all
+the encodings one after the other keeping the result slices, and only then look: every string is back
+— for every well-formed table. (One string at a time this is `roundtrip_encode_decode`.) -/
+theorem batch_roundtrip {rm : RangeMap} (h : WF rm) (junk : Nat) (ps : List (List Nat × List Nat))
+    (he : ∀ p ∈ ps, encodeSpec rm p.1 = .ok p.2) :
+    observeLate .fresh (keepBatch junk 0 (ps.map fun p => (p.2, decode rm p.2))) { heap := ps.map (·.2) } =
+      ps.map fun p => .ok p.1 := by
+  have := batch_keep_independent junk (ps.map fun p => (p.2, decode rm p.2))
+  simp only [List.map_map, Function.comp_def] at this
+  rw [this]
+  apply List.map_congr_left
+  intro p hp
+  exact roundtrip_encode_decode h p.1 p.2 (he p hp)
+
+/-- Non-vacuity on a regenerated table: `ééé`, `èèè` in latin1, decoded in one batch. -/
+example : observeLate .fresh (keepBatch 0xAA 0
+      [([0xE9, 0xE9, 0xE9], decode Generated.C30.latin1 [0xE9, 0xE9, 0xE9]),
+       ([0xE8, 0xE8, 0xE8], decode Generated.C30.latin1 [0xE8, 0xE8, 0xE8])])
+      { heap := [[0xE9, 0xE9, 0xE9], [0xE8, 0xE8, 0xE8]] } =
+    [.ok [0xC3, 0xA9, 0xC3, 0xA9, 0xC3, 0xA9], .ok [0xC3, 0xA8, 0xC3, 0xA8, 0xC3, 0xA8]] := by decide +kernel
+
+/-- What `fresh` rules out (1): output built in a buffer that outlives the call (package-level scratch
+buffer, `sync.Pool`, field of the encoder). Each result is right when its call returns
+(`observeEager`), and the earlier one has turned into the later one when the batch is over
+(`observeLate`): `SELECT _latin1 X'E9E9E9', _latin1 X'E8E8E8'` would return `èèè, èèè`. -/
+theorem shared_not_independent :
+    ∃ st m, editsBelow m.heap.length st = true ∧
+      observeEager (.shared 0) 0x55 st m = pureResults st ∧
+      observeLate (.shared 0) st m ≠ pureResults st :=
+  ⟨[.call [0xE9, 0xE9, 0xE9] (decode Generated.C30.latin1 [0xE9, 0xE9, 0xE9]),
+    .call [0xE8, 0xE8, 0xE8] (decode Generated.C30.latin1 [0xE8, 0xE8, 0xE8])],
+   { heap := [[]] }, by decide, by decide +kernel, by decide +kernel⟩
+
+/-- The same with results of different lengths: the earlier ones become a mix of all of them
+(utf16 `éé`, `日日`, `AB` read `AB\xa5\xe6`, `AB\xa5日`, `AB` — not even well-formed UTF-8). -/
+example : observeLate (.shared 0)
+      [.call [0, 0xE9, 0, 0xE9] (decode Generated.C30.utf16 [0, 0xE9, 0, 0xE9]),
+       .call [0x65, 0xE5, 0x65, 0xE5] (decode Generated.C30.utf16 [0x65, 0xE5, 0x65, 0xE5]),
+       .call [0, 0x41, 0, 0x42] (decode Generated.C30.utf16 [0, 0x41, 0, 0x42])] { heap := [[]] } =
+    [.ok [0x41, 0x42, 0xA5, 0xE6], .ok [0x41, 0x42, 0xA5, 0xE6, 0x97, 0xA5], .ok [0x41, 0x42]] := by
+  decide +kernel
+
+/-- What `fresh` rules out (2): a repeated input gets a stored result slice back (memo table, a row of
+a static table). Late reads do not see it; a caller that edits the first result (allowed:
+`IsReturnSafe`) finds its edit in the second. -/
+theorem memo_not_independent :
+    ∃ st m, observeLate .memo st m = pureResults st ∧ observeEager .memo 0x55 st m ≠ pureResults st :=
+  ⟨[.call [0xE9] (decode Generated.C30.latin1 [0xE9]), .call [0xE9] (decode Generated.C30.latin1 [0xE9])],
+   { heap := [] }, by decide +kernel, by decide +kernel⟩
+
 /-! ### `Encode` (Impl) vs. Spec -/
 
 /-- Region `encode_overflow_unit`: `s` contains a UTF-8 unit that hits an entry whose UTF-8 box
@@ -365,7 +453,12 @@ theorem loose_entries :
      []] := by
   decide +kernel
 
-/-- Shape of the loops and the list of character sets with an encoder, as read from the source.
+/-- Shape of the loops, where the results live, and the list of character sets with an encoder, as
+read from the source. `outputWrites_*` (every statement that writes the variable a conversion function
+returns: `make` per call, then `append` / index assignment), `packageVars = []` and `structFields`
+(nothing but the tables) are the allocation discipline `Alloc.fresh` of the memory model: storage that
+outlives a call would have to show up in one of them (`shared_not_independent`, `memo_not_independent`
+are the replays).
 `encodeHasLengthGuard = true` is the repair of finding `encode_unrepresentable_tail` (the model
 `encode` is the guarded loop): if the guard disappears again this obligation breaks and
 `fixed_encode_unrepresentable_tail` is the replay. -/
@@ -375,6 +468,20 @@ theorem facts_match :
     Generated.C30.loopBounds_Decode = ["len(rm.inputEntries)"] ∧
     Generated.C30.loopBounds_Encode = ["len(rm.inputEntries)"] ∧
     Generated.C30.loopBounds_EncodeReplaceUnknown = ["len(rm.inputEntries)", "len(str)"] ∧
+    Generated.C30.outputWrites_Decode =
+      ["decodedStr := make([]byte, 0, len(str))", "decodedStr = append(decodedStr, decodedRune...)"] ∧
+    Generated.C30.outputWrites_Encode =
+      ["encodedStr := make([]byte, 0, len(str))", "encodedStr = append(encodedStr, encodedRune...)"] ∧
+    Generated.C30.outputWrites_EncodeReplaceUnknown =
+      ["encodedStr := make([]byte, 0, len(str))", "encodedStr = append(encodedStr, encodedRune...)"] ∧
+    Generated.C30.outputWrites_DecodeRune =
+      ["outputData := make([]byte, len(entry.outputRange))", "outputData[i] = entry.outputRange[i][0] + byte(diff)"] ∧
+    Generated.C30.outputWrites_EncodeRune =
+      ["inputData := make([]byte, len(entry.inputRange))", "inputData[i] = entry.inputRange[i][0] + byte(diff)"] ∧
+    Generated.C30.packageVars = [] ∧
+    Generated.C30.structFields =
+      ["toUpper map[rune]rune", "toLower map[rune]rune", "inputEntries [][]rangeMapEntry",
+       "outputEntries [][]rangeMapEntry"] ∧
     Generated.C30.charsets =
       [("armscii8", "rangemap"), ("ascii", "rangemap"), ("binary", "native"), ("cp1256", "rangemap"),
        ("cp1257", "rangemap"), ("dec8", "rangemap"), ("geostd8", "rangemap"), ("latin1", "rangemap"),
